@@ -11,6 +11,7 @@ import optoracle
 import optrun
 
 PROP = "C01"
+CONCURRENT = "parse"   # extra phase: lib/mtindep.py (parsers used by several threads at once)
 LEVEL = "exploration"
 RULE = ("argument vectors over one representative token per relation class (declared / undeclared "
         "long names, --no- forms, letters, all bundles of length 2-3 over {toggle letters, option "
